@@ -229,16 +229,25 @@ namespace igris
 
         template <typename... Args> void emplace_back(Args &&... args)
         {
-            reserve(m_size + 1);
-            igris::constructor(m_data + m_size, std::forward<Args>(args)...);
+            if (m_size < m_capacity)
+            {
+                igris::constructor(m_data + m_size,
+                                   std::forward<Args>(args)...);
+            }
+            else
+            {
+                // An argument may refer to an element of this vector:
+                // build the new element before the old buffer is released.
+                T tmp(std::forward<Args>(args)...);
+                reserve(m_size + 1);
+                igris::move_constructor(m_data + m_size, std::move(tmp));
+            }
             m_size++;
         }
 
         void push_back(const T &ref)
         {
-            reserve(m_size + 1);
-            igris::constructor(m_data + m_size, ref);
-            m_size++;
+            emplace_back(ref);
         }
 
         void pop_back()
